@@ -525,6 +525,10 @@ def check_C15(chk):
         chk.add_replay(out, st)
     chk.cov["exhaustive"] = True
     stage_trace(chk, bins, "ms", "TraceMS", seeds=2 if chk.thorough else 1)
+    res = vlib.run_tlc(chk.work, "MC_MSRef64_run", "MC_MSRef64", cfg_consts({"MaxU": 5 if chk.thorough else 4, "MaxVals": 5 if chk.thorough else 4}) + MC_TAIL + "INVARIANT Agree\n", workers=8)
+    vlib.tlc_must_pass(res, "MC_MSRef64")
+    chk.add_tlc(res, "MC_MSRef64: the U64 (limb) multiset semantics agrees with MSRef on every small multiset and argument")
+    stage_trace(chk, bins, "huge_ms", "TraceMS64")
     return chk.finish(rule="cases = (universe, value list, query, argument) on multiset sparse vectors built by three routes; plus iterator call "
                            "histories over duplicates; distinct = distinct (universe, values, query, argument) with a non-empty value list")
 
